@@ -68,6 +68,7 @@ GAMMAS = ["1/2", "3/4", "7/8"]
 # longer experiences are decided by the Python oracle only (counted separately, not as evaluations)
 MAX_STEPS = 300
 MAX_STEPS_GEN = 80
+MAX_STEPS_EDGE = 40     # boundary family: 20..70 bits per step
 TOL = F(1, 10**12)
 TOL_GEN = F(1, 10**9)
 
@@ -121,8 +122,11 @@ def gen_case(rng, tier):
         episodes = rng.choice([5, 8, 12, 20])
         if rng.random() < .6:
             iq = {"kind": "table", "table": [[str(scale_value(rng)) for _ in range(nA)] for _ in range(n)]}
-    if family == "scale" and rng.random() < .12:
-        temp = rng.choice(["1/2", "2"])          # large Q / temperature: the behaviour softmax must not overflow
+    if family == "scale" and rng.random() < .25:
+        # large Q / temperature (> 709) on the softmax branch of the behaviour sampler (needs eps < 1): no overflow
+        temp, eps = rng.choice(["1/2", "2"]), rng.choice(["0", "1/20"])
+    if family == "plain" and rng.random() < .06:
+        temp, eps = "1/64", rng.choice(["0", "1/20"])   # |Q| up to ~32 => Q/temp up to ~2000
     if family == "plain" and rng.random() < .1:
         # boundary family: parameters within 2^-20 / 2^-30 of 0 or 1, a transition row (1 - k*2^-20, 2^-20, ...)
         family = "edge"
@@ -308,9 +312,15 @@ def oracle(case, res):
     for ep_i, epi in enumerate(res["episodes"]):
         if kind == "sarsa":
             row(t1, epi["start"])
+        cur, prev_na = epi["start"], None
         for st in epi["steps"]:
             s, a, ns, r = st["s"], st["a"], st["ns"], vlib.frac(st["r"])
             where = {"episode": ep_i, "step_index": idx, "step": st}
+            if s != cur:
+                return None, where, "experienced step does not start where the previous one ended"
+            if kind == "sarsa" and prev_na is not None and a != prev_na:
+                return None, where, "SARSA action taken is not the next action sampled in the previous step"
+            cur, prev_na = ns, st.get("na")
             if m["absorbing"][s]:
                 return None, where, "experienced step starts in an absorbing state"
             if a not in m["actions"][s]:
@@ -357,6 +367,8 @@ def oracle(case, res):
                     where.update({"written": [str(x) for x in got], "update_rule_gives": [str(x) for x in exp_after]})
                     return None, where, "entry written at a step is not the update rule applied to the table"
             idx += 1
+        if not m["absorbing"][cur]:
+            return None, {"episode": ep_i, "last_state": cur}, "episode ends in a non-absorbing state"
     if kind == "dq":
         keys = set(t1) | set(t2)
         t = {s: {a: row(t1, s)[a] / 2 + row(t2, s)[a] / 2 for a in m["actions"][s]} for s in keys}
@@ -424,7 +436,7 @@ def search_failing(case, res, impl_rows, impl_pol):
 # ---------------------------------------------------------------------------------------------
 def run(ctx):
     tier = ctx.tier
-    ncases = 220 if tier == "quick" else 3000
+    ncases = 200 if tier == "quick" else 3000
     if ctx.replay_case:
         cases = [ctx.replay_case["detail"]["case"]]
     else:
@@ -512,7 +524,7 @@ def run(ctx):
         mk = model_kind(case)
         gen = mk == "esarsag"
         nsteps = sum(len(e["steps"]) for e in res["episodes"])
-        if nsteps > (MAX_STEPS_GEN if (gen or case.get("family") == "edge") else MAX_STEPS):
+        if nsteps > (MAX_STEPS_EDGE if case.get("family") == "edge" else MAX_STEPS_GEN if gen else MAX_STEPS):
             stats["long_runs_oracle_only"] += 1
             clause, where = search_failing(case, res, impl_rows, impl_pol)
             if clause:
@@ -614,7 +626,7 @@ def run(ctx):
 
     import time as _t
     _t0 = _t.time()
-    vals = ctx.coq(PRE, terms, shard=6 if tier == "quick" else 20)
+    vals = ctx.coq(PRE, terms, shard=10 if tier == "quick" else 20)
     stats["coq_wall_s"] = round(_t.time() - _t0, 1)
     nchk = 0
     interval_checked = 0
